@@ -206,7 +206,7 @@ def bfs (expand, depth, rep, workers=1, seed=0, max_states=None, chunk=64):
         rep.outcome((h[-1], r.get("out")))
         if r["bad"]:
           for k, what in r["bad"]:
-            rep.violation(k, what, dict(history=list(h)))
+            rep.violation(k, what, dict(history=list(h), **r.get("replay_extra", {})))
           continue
         dg = digest(r["key"])
         if dg in seen: continue
